@@ -134,14 +134,11 @@ func readThrough(arr, idx *Term, depth int) *Term {
 func groundQuery(assume []*Term, pc, goal *Term) ([]*Term, bool) {
 	var ground []*Term
 	var rules []*qrule
-	addAssumption := func(a *Term) {
-		g := (*Term)(nil)
-		t := a
-		if t.Op == "=>" && !t.Args[0].bound && !hasQuant(t.Args[0], map[*Term]bool{}) {
-			g, t = t.Args[0], t.Args[1]
-		}
+	var addG func(g *Term, t *Term)
+	addG = func(g *Term, t *Term) {
+		qm := map[*Term]bool{}
 		for _, c := range conjuncts(t) {
-			if !hasQuant(c, map[*Term]bool{}) {
+			if !hasQuant(c, qm) {
 				if g != nil {
 					ground = append(ground, Implies(g, c))
 				} else {
@@ -149,7 +146,16 @@ func groundQuery(assume []*Term, pc, goal *Term) ([]*Term, bool) {
 				}
 				continue
 			}
-			if c.Op == "forall" && len(c.Args) == 2 && !hasQuant(c.Args[1], map[*Term]bool{}) {
+			// peel quantifier-free guards:  g2 => (... forall ...)
+			if c.Op == "=>" && !hasQuant(c.Args[0], qm) {
+				ng := c.Args[0]
+				if g != nil {
+					ng = And(g, c.Args[0])
+				}
+				addG(ng, c.Args[1])
+				continue
+			}
+			if c.Op == "forall" && len(c.Args) == 2 && !hasQuant(c.Args[1], qm) {
 				tr := findTriggers(c.Args[1], c.Args[0])
 				if len(tr) > 0 {
 					rules = append(rules, &qrule{guard: g, v: c.Args[0], body: c.Args[1], trigs: tr})
@@ -158,6 +164,7 @@ func groundQuery(assume []*Term, pc, goal *Term) ([]*Term, bool) {
 			// anything else quantified is dropped
 		}
 	}
+	addAssumption := func(a *Term) { addG(nil, a) }
 	for _, a := range assume {
 		addAssumption(a)
 	}
